@@ -398,13 +398,81 @@ def job(arg):
     return rep
 
 
+def fork_job(arg):
+    """Worker processes forked from a process whose DBFS store has already transferred blobs read different paths at the
+    same time (their downloads are lined up by a barrier in the fake dbutils): each gets its own value."""
+    cache, tags = arg
+    import multiprocessing
+
+    import dds
+    from vp.fakedbutils import FakeDbutils
+
+    rep = core.Report("C17")
+    rep.evaluations = 1
+    dds.accept_module("checks")
+    case = {"fork": True, "cache": cache, "tags": tags}
+    with core.Scratch("vp_c17f_") as root:
+        _DBFS_ROOT[0] = root
+        dbu = FakeDbutils(root)
+        dds.set_store("dbfs", internal_dir="dbfs:/internal", data_dir="dbfs:/data", dbutils=dbu, cache_objects=cache)
+        for t in tags:
+            dds.keep("/c17f/%s" % t, produce, t)
+        # the parent has transferred blobs (stores and one load) before the workers are forked
+        dds.load("/c17f/%s" % tags[0])
+        ctx = multiprocessing.get_context("fork")
+        barrier = ctx.Barrier(len(tags))
+        q = ctx.Queue()
+
+        def hook(src, dst):
+            if dst.startswith("file:"):
+                try:
+                    barrier.wait(3)
+                except Exception:
+                    pass
+
+        def worker(t):
+            dbu.fs.after_cp_hook = hook
+            try:
+                v = dds.load("/c17f/%s" % t)
+                q.put((t, "ok", pickle.dumps(v)))
+            except BaseException as e:
+                q.put((t, "exc", "%s: %s" % (type(e).__name__, str(e)[:150])))
+
+        procs = [ctx.Process(target=worker, args=(t,)) for t in tags]
+        for pr in procs:
+            pr.start()
+        res = {}
+        for _ in tags:
+            try:
+                t, st, payload = q.get(timeout=60)
+                res[t] = (st, payload)
+            except Exception:
+                break
+        for pr in procs:
+            pr.join(10)
+            if pr.is_alive():
+                pr.terminate()
+    for t in tags:
+        rep.count("reads_checked_forked_workers")
+        if t not in res:
+            rep.inconclusive.append("forked worker for %s gave no answer" % t)
+            continue
+        st, payload = res[t]
+        if st != "ok":
+            rep.violate("dbfs (cache=%r): forked workers loading different paths at the same time: reading /c17f/%s raised %s" % (cache, t, payload), case, mechanism="concurrent-transfer-mixed-up")
+        elif not SM.values_equal(pickle.loads(payload), value(t)):
+            rep.violate("dbfs (cache=%r): forked workers loading different paths at the same time: /c17f/%s read back as %s" % (cache, t, repr(pickle.loads(payload))[:80]), case, mechanism="concurrent-transfer-mixed-up")
+    rep.nontriv(("c17fork", repr(cache), repr(tags)))
+    return rep
+
+
 def run(tier, seed):
     rep = core.Report("C17")
     rng = core.rng_for(seed, "c17")
     rep.rule = (
         "values %r (str: empty/ASCII/non-ASCII/CRLF/1MB, bytes: empty/all 256 values/1MB, None, ints, nested containers, picklable object, pandas frames, "
         "types with a user FileCodecProtocol and a user CodecProtocol) x registration scenarios %r applied between writes and reads x stores {local, local+cache, dbfs(fake), dbfs(fake)+cache, memory}; "
-        "reads through dds.load in the same process, Store.fetch_blob on a new store object, and dds.load in another process with the extra codecs registered before/after the user codecs; on local stores the metadata file of some blobs is removed (killed writer) and the call repeated under the changed codec selection. "
+        "reads through dds.load in the same process, Store.fetch_blob on a new store object, and dds.load in another process with the extra codecs registered before/after the user codecs; on local stores the metadata file of some blobs is removed (killed writer) and the call repeated under the changed codec selection; worker processes forked from a process with a DBFS store reading different paths at the same time. "
         "distinct_nontrivial = distinct (store, scenario, value order) runs that wrote >=2 values." % (TAGS, SCENARIOS)
     )
     jobs = []
@@ -417,7 +485,14 @@ def run(tier, seed):
                     tags = [t for t in tags if t not in ("bytes_big",)] if (kind, sc) != ("local", "none") else tags
                 rng.shuffle(tags)
                 jobs.append((kind, sc, tags))
-    results = core.fork_map(job, jobs, timeout=900)
+    fjobs = [(None, ["str_ascii", "str_nonascii"]), (None, ["str_ascii", "nested", "bytes_plain"]), (None, ["frame0", "obj"])]
+    results = core.fork_map(lambda j: fork_job(j[1]) if j[0] == "f" else job(j[1]), [("j", j) for j in jobs] + [("f", j) for j in fjobs], timeout=900)
+    for r in results[len(jobs):]:
+        if isinstance(r, core.JobFailed):
+            rep.inconclusive.append("fork job: %r" % (r,))
+        else:
+            rep.merge(r)
+    results = results[: len(jobs)]
     for j, r in zip(jobs, results):
         if isinstance(r, core.JobFailed):
             rep.inconclusive.append("job %r/%r: %r" % (j[0], j[1], r))
@@ -431,5 +506,8 @@ def run(tier, seed):
 def replay(payload):
     rep = core.Report("C17")
     c = payload["case"]
+    if c.get("fork"):
+        rep.merge(fork_job((c["cache"], c["tags"])))
+        return rep
     rep.merge(job((c["kind"], c["scenario"], c["tags"])))
     return rep
